@@ -629,6 +629,9 @@ func init() {
 		r.Sample(map[string]any{"conformant_stream": ev.Hex(mkValid(2, "", 0)(1)), "meaning": "next-protocol, algorithm 15, two cookies, end-of-message"})
 		r.Assume("server records carry IP literals (no resolver in the sandbox); TLS 1.3 with a self-signed certificate and InsecureSkipVerify")
 		r.Assume("verdict 'either' (not judged beyond crash-freedom): warning records, records of unusual length, anything after a non-canonical record")
+		if r.Only() == "" || r.Only() == "main:c20wiring" {
+			runMainLeg(r, "c20wiring")
+		}
 		r.Finish("scripted NTS-KE server streams against the real Fetcher: conformant messages with 1..8 cookies and server/port records; every two-write segmentation point and random multi-write segmentations; connection dropped at every byte; "+
 			"error / warning / unknown critical / unknown non-critical records inserted at every record position incl. after end-of-message; record reorderings; no cookie, other algorithms, missing algorithm, missing end-of-message, empty stream, "+
 			"server without ntske/1 in its ALPN list; random record soups; sequences of 1..3 failed exchanges (cookies then error/drop/other algorithm/unknown critical/no ALPN/server named then error) followed by a good one on the same client; "+
